@@ -1,7 +1,199 @@
 package cluster
 
-import "verifkit/stat"
+import (
+	"fmt"
+	"testing"
+	"time"
+
+	"pgregory.net/rapid"
+	"verifkit/stat"
+)
+
+func genC21Plan(rt *rapid.T) kPlan {
+	var p kPlan
+	p.Topo = genTopo(rt, kGenOpt{Bias: "c21"})
+	p.Cfg = genCfg(rt)
+	p.Cfg.MaxRedir = 0
+	switch rapid.IntRange(0, 9).Draw(rt, "replicaMode") {
+	case 0:
+		p.Cfg.ReplicaOnly = true
+	case 1:
+		// neither: every command must go to a primary
+	default:
+		p.Cfg.Pred = rapid.SampledFrom([]string{"always", "never", "readonly", "readonly", "kecho", "slot-odd", "uid-odd", "uid-odd"}).Draw(rt, "pred")
+		p.Cfg.Selector = rapid.SampledFrom([]string{"", "replica", "replica", "readnode", "readnode"}).Draw(rt, "selector")
+		if p.Cfg.Selector != "" {
+			p.Cfg.SelTable = rapid.SliceOfN(rapid.SampledFrom([]string{"valid", "valid", "zero", "neg", "big"}), 1, 5).Draw(rt, "selTable")
+		}
+	}
+	g := &kGen{rt: rt}
+	g.slots = genSlots(rt, p.Topo, rapid.IntRange(2, 6).Draw(rt, "nSlots"), false)
+	nc := rapid.IntRange(1, 3).Draw(rt, "callers")
+	for c := 0; c < nc; c++ {
+		no := rapid.IntRange(1, 4).Draw(rt, "ops")
+		var ops []kOp
+		for i := 0; i < no; i++ {
+			op := kOp{GapUs: genGap(rt), Kind: rapid.SampledFrom([]string{"do", "do", "multi", "multi", "multi", "cache", "multicache", "stream", "tx"}).Draw(rt, "kind")}
+			switch op.Kind {
+			case "do":
+				op.Items = []kItem{{Cmds: []kCmd{g.cmd([]string{"kecho", "kecho", "kset", "get"}, g.slot())}}}
+			case "stream":
+				op.Items = []kItem{{Cmds: []kCmd{g.cmd([]string{"kecho", "kset"}, g.slot())}}}
+			case "cache":
+				op.Items = []kItem{{Cmds: []kCmd{g.cmd([]string{"get"}, g.slot())}}}
+			case "multi":
+				n := rapid.IntRange(2, 6).Draw(rt, "n")
+				for k := 0; k < n; k++ {
+					op.Items = append(op.Items, kItem{Cmds: []kCmd{g.cmd([]string{"kecho", "kecho", "kset", "get"}, g.slot())}})
+				}
+			case "multicache":
+				n := rapid.IntRange(2, 5).Draw(rt, "n")
+				for k := 0; k < n; k++ {
+					op.Items = append(op.Items, kItem{Cmds: []kCmd{g.cmd([]string{"get"}, g.slot())}})
+				}
+			case "tx":
+				// with MULTI/EXEC in the batch the cluster client sends everything to the primary
+				op.Kind = "multi"
+				slot := g.slot()
+				g.blk++
+				it := kItem{Tx: true, ID: fmt.Sprintf("b%d", g.blk)}
+				for m := 0; m < rapid.IntRange(1, 3).Draw(rt, "members"); m++ {
+					it.Cmds = append(it.Cmds, g.cmd([]string{"kecho", "kset", "get"}, slot))
+				}
+				op.Items = []kItem{{Cmds: []kCmd{g.cmd([]string{"kecho"}, slot)}}, it}
+			}
+			ops = append(ops, op)
+		}
+		p.Callers = append(p.Callers, ops)
+	}
+	p.Events, _, _ = genEvents(rt, p.Topo, g, []string{"move", "health", "health", "switch"}, 1, 8000)
+	return p
+}
 
 func c21Check(c *stat.Collector, rt stat.Fataler, plan kPlan, run kRun) (nt bool, classes []string) {
-	return false, nil
+	cls := map[string]bool{}
+	if run.Pending > 0 || run.Res.Deadlock {
+		c.Fail(rt, "C21.no-hang", fmt.Sprintf("%d calls never returned %v (%s)", run.Pending, run.PendingOps, run.Res), plan)
+	}
+	if run.Res.Panic != nil {
+		c.Fail(rt, "C21.no-panic", run.Res.String(), plan)
+	}
+	obs := kObserve(plan, run)
+	cfg := plan.Cfg
+	switch {
+	case cfg.ReplicaOnly:
+		cls["replica-only-client"] = true
+	case cfg.Pred == "":
+		cls["no-replica-option"] = true
+	default:
+		cls["pred-"+cfg.Pred] = true
+		cls["selector-"+map[string]string{"": "default", "replica": "ReplicaSelector", "readnode": "ReadNodeSelector"}[cfg.Selector]] = true
+	}
+	for _, sc := range run.SelCalls {
+		if sc.Ret < 0 || sc.Ret >= len(sc.Addrs) {
+			cls["selector-returned-out-of-range"] = true
+		} else {
+			cls["selector-returned-valid"] = true
+		}
+	}
+	for ci := range plan.Callers {
+		for oi := range plan.Callers[ci] {
+			op := &plan.Callers[ci][oi]
+			r := run.result(plan, ci, oi)
+			if !r.Done {
+				continue
+			}
+			where := fmt.Sprintf("caller %d op %d (%s)", ci, oi, op.Kind)
+			pos := op.positions()
+			hasInit := false
+			for _, p := range pos {
+				if p.Role != "cmd" {
+					hasInit = true
+				}
+			}
+			nTrue, nFalse := 0, 0
+			for _, p := range pos {
+				if p.Role != "cmd" {
+					continue
+				}
+				cm := p.Cmd
+				pred := cfg.Pred != "" && kPred(cfg.Pred, cm.argv())
+				if pred {
+					nTrue++
+				} else {
+					nFalse++
+				}
+				ss := obs.Sends[cm.UID]
+				if len(ss) == 0 {
+					continue
+				}
+				s0 := ss[0]
+				prims, group, _ := obs.primaryCandidates(cm.Slot, r.StartUs, s0.R.At)
+				what := fmt.Sprintf("%s command %s %v (slot %d)", where, cm.UID, cm.argv(), cm.Slot)
+				onPrimary := prims[s0.R.Server]
+				if !onPrimary {
+					cls["sent-to-replica"] = true
+				}
+				hasReplica := len(group) > len(prims)
+				// (1) a replica only when SendToReplicas says so or the client is ReplicaOnly; everything else to the primary
+				if !pred && !cfg.ReplicaOnly && !onPrimary {
+					c.Fail(rt, "C21.replica-only-when-allowed", fmt.Sprintf("%s: SendToReplicas (%q) is false for it and the client is not ReplicaOnly, yet it was first sent to %s; primaries of the slot in the topology answers the client held: %v", what, cfg.Pred, s0.R.Server, keysOf(prims)), plan)
+				}
+				// (2) a selector answer outside the candidate list means the primary
+				if pred && cfg.Selector != "" && !hasInit {
+					_, kind := kSel(cfg.SelTable, cm.Slot, 1)
+					if hasReplica {
+						cls["selector-"+kind+"-for-replica-eligible-command"] = true
+					}
+					if (kind == "neg" || kind == "big") && !onPrimary {
+						c.Fail(rt, "C21.selector-out-of-range-falls-back", fmt.Sprintf("%s: the %s answers out of range (%s) for slot %d, yet the command was first sent to %s instead of the primary %v", what, cfg.Selector, kind, cm.Slot, s0.R.Server, keysOf(prims)), plan)
+					}
+					if (kind == "neg" || kind == "big") && hasReplica {
+						cls["out-of-range-fallback-observed"] = true
+					}
+				}
+				if pred && hasReplica {
+					cls["replica-eligible-command"] = true
+				}
+			}
+			if len(pos) > 1 && nTrue > 0 && nFalse > 0 && !hasInit {
+				cls["batch-mixed-predicate"] = true
+			}
+			if hasInit {
+				cls["batch-with-transaction"] = true
+			}
+			cls["call-"+op.Kind] = true
+		}
+	}
+	for _, e := range plan.Events {
+		cls["event-"+e.Kind] = true
+	}
+	for k := range cls {
+		classes = append(classes, k)
+	}
+	nt = cls["batch-mixed-predicate"] || cls["out-of-range-fallback-observed"]
+	return nt, classes
+}
+
+func TestVerif_C21_ClusterReplicas(t *testing.T) {
+	c := stat.For("C21", "cluster-"+queueLabel()).Rule("cluster part: timed plans in a synctest bubble against the cluster personality of the fake server: 2-5 primaries x 0-2 replicas (replicas with ?/null endpoints or fail/loading health), CLUSTER SLOTS or SHARDS; client options: SendToReplicas from {always, never, read-only commands, by command name, by slot parity, by a hash of the command's tag} with the default selector, ReplicaSelector or ReadNodeSelector answering per slot a valid index, 0, a negative or a too large index; or ReplicaOnly; or none; 1-3 callers x 1-4 calls of Do, DoMulti (2-6 commands, also with a MULTI..EXEC block), DoCache, DoMultiCache, DoStream with uniquely tagged keyed reads and writes; at most one event (slot move, replica health change, role switch); oracle from the servers' logs: the first send of a command for which SendToReplicas is false (client not ReplicaOnly) goes to the primary of its slot in a topology answer the client held; with a selector whose answer for the slot is out of range the first send of a replica-eligible command goes to the primary; non-trivial = a batch with both predicate values, or an out-of-range selector answer for a replica-eligible command whose shard has replicas")
+	defer c.Flush()
+	rapid.Check(t, func(rt *rapid.T) {
+		plan := genC21Plan(rt)
+		saveCase("c21", plan)
+		t0 := time.Now()
+		run := kRunPlan(t, plan)
+		kSlow("c21", plan, t0)
+		if run.Res.Frozen {
+			c.Inconclusive("virtual-clock-freeze")
+			return
+		}
+		if run.NewErr != "" {
+			c.Inconclusive("new-client-failed: " + run.NewErr)
+			return
+		}
+		nt, classes := c21Check(c, rt, plan, run)
+		c.Eval(nt, planKey(plan), classes...)
+		c.Sample(nt, func() any { return plan })
+	})
 }
